@@ -511,11 +511,21 @@ func main() {
 		runWorker(known)
 		return
 	}
-	os.Exit(parent(known))
+	code := parent(known)
+	if *fScratch != "" && strings.Contains(*fScratch, "simcheck-") {
+		os.RemoveAll(*fScratch)
+	}
+	os.Exit(code)
 }
 
 func parent(known []knownFinding) int {
 	start := time.Now()
+	// every worker and replay of this check works below one scratch directory
+	// that is removed when the check ends, whatever became of the workers
+	if root, err := os.MkdirTemp(scratchDir(), "simcheck-"); err == nil {
+		*fScratch = root
+		defer os.RemoveAll(root)
+	}
 	prop := *fProp
 	workers := *fWorkers
 	if workers <= 0 {
